@@ -493,6 +493,14 @@ impl Session {
                     },
                     Err(UnsolvableOrCancelled::Unsolvable(conflict)) => {
                         let r = guarded(|| {
+                            // A provider's cancellation token may be raised after solve has returned
+                            // (deadline, Ctrl-C): rendering must still finish and say the same. When
+                            // rendering is checked, the FIRST graph and message are built with the
+                            // token raised, while nothing has been cached by an earlier rendering.
+                            let prev_cancel = s.provider().cancel.get();
+                            if render {
+                                s.provider().cancel.set(Cancel::Sticky(0));
+                            }
                             let graph = conflict.graph(s);
                             let mut gd = GraphData::default();
                             let g = &graph.graph;
@@ -526,20 +534,12 @@ impl Session {
                                 let n = data.graph.nodes.len();
                                 let m = data.graph.edges.len();
                                 let quad = (n + m + 2).pow(2);
-                                // A provider's cancellation token may be raised after solve has returned
-                                // (deadline, Ctrl-C): rendering must still finish and say the same. The
-                                // cancelled rendering runs FIRST, while nothing is cached by an earlier one.
                                 let mut cancelled = BoundedString { s: String::new(), limit: 4096 + quad * 64, overflow: false };
-                                let cancelled_nodes;
-                                {
-                                    let prev = s.provider().cancel.get();
-                                    s.provider().cancel.set(Cancel::Sticky(0));
-                                    let g2 = conflict.graph(s);
-                                    cancelled_nodes = g2.graph.node_count();
-                                    let disp2 = conflict.display_user_friendly(s);
-                                    let _ = std::fmt::write(&mut cancelled, format_args!("{disp2}"));
-                                    s.provider().cancel.set(prev);
-                                }
+                                let disp2 = conflict.display_user_friendly(s);
+                                let _ = std::fmt::write(&mut cancelled, format_args!("{disp2}"));
+                                s.provider().cancel.set(prev_cancel);
+                                let cancelled_nodes = n;
+                                let n = conflict.graph(s).graph.node_count();
                                 let mut msg = BoundedString { s: String::new(), limit: 4096 + quad * 64, overflow: false };
                                 let disp = conflict.display_user_friendly(s);
                                 let _ = std::fmt::write(&mut msg, format_args!("{disp}"));
